@@ -8,7 +8,7 @@ GEN_GROUPS = ["cancel"]
 TRUSTED = ["model: Model/Dispatcher (hand-written mirror of handle_event / begin_cancel / broadcast; corresponded through the stepping hook)",
            "the stepping hook repeats the part of DispatcherContext::run that maps a response to a broadcast (run itself needs live signal/input handlers)",
            "tokio channel FIFO order and select! fairness are not modelled: theorems hold for every event order"]
-ASSUMPTIONS = ["units leave retry delays on cancellation and the run ends when they end: executor-side, covered by the end-to-end engine (see C07/C11), not by this check"]
+ASSUMPTIONS = ["units leave retry delays on cancellation and the run ends when they end: proved on Model/System (no_delay_sat_out, wake_ends_delay) and observed end-to-end in the families cancel (fail-fast / max-fail) and sig (shutdown signals)"]
 
 
 def monitors(req, impl):
@@ -75,6 +75,8 @@ def run_p(seed, tier, replay=None):
 
 def run(seed, tier, replay=None):
     from props import mix, tim
-    return mix.merge(run_p(seed, tier, replay), tim.run_family("cancel", seed, tier, 7, 35))
+    r = mix.merge(run_p(seed, tier, replay), tim.run_family("cancel", seed, tier, 7, 35))
+    # cancellation by a shutdown signal: nothing starts afterwards, no retry delay is sat out (the signal-specific clauses are C11's)
+    return mix.merge(r, tim.run_family("sig", seed, tier, 8, 40, kinds=("retry-after-signal", "exit-late", "start-after-signal", "hang", "system")))
 
 KNOWN_MATCHERS = {}
